@@ -243,6 +243,33 @@ GROUPS["aiger_token_small"] = dict(GROUPS["aiger_token_t0"], **{
     ],
 })
 
+GROUPS["btor2_token_t0"] = dict(dict(_MODEL, **_SPEC_INJECT), **{
+    "name": "btor2_token_t0",
+    "package": "flussab-btor2",
+    "prefix": "token::verif_token::",
+    "overlay": [("flussab-btor2/src/token.rs", "token", "harness/btor2/token_t0.rs")],
+    "params": {"quick": {"N": 12}, "thorough": {"N": 14}},
+    "flags": ["-Z", "stubbing"],
+    "flags_tier": {"quick": ["--default-unwind", "14"], "thorough": ["--default-unwind", "16"]},
+    "timeout": {"quick": 1200, "thorough": 5400},
+    "harnesses": [
+        ("single_byte_tokens", {"props": ["C09", "C08", "C05"], "cost": 1, "what": "btor2 newline / space / comment_start"}),
+        ("skip_whitespace_token", {"props": ["C08", "C05"], "cost": 2, "what": "skip_whitespace: spaces and LFs with line accounting"}),
+        ("eof_token", {"props": ["C04"], "cost": 1, "what": "eof only at the end of a source that did not fail"}),
+        ("uint_u64", {"props": ["C06", "C05", "C09"], "cost": 4, "what": "btor2 uint: no leading zeros, exact u64"}),
+        ("positive_and_nonnegative_int", {"props": ["C06", "C08", "C05", "C04"], "cost": 5, "what": "positive_int / nonnegative_int and the location of their range error"}),
+        ("comment_body_token", {"props": ["C04", "C09", "C08"], "cost": 3, "what": "comment_body: up to the LF; not handed out as complete when a failing source cut it short"}),
+        ("symbol_name_token", {"props": ["C09", "C05"], "cost": 3, "what": "symbol_name"}),
+        ("lowercase_u64_fast_eq_cold", {"props": ["C01", "C09", "C05"], "cost": 6, "what": "BTOR2 keyword scanner: SWAR fast path == cold path == reference, for every buffered amount"}),
+        ("lowercase_raw_load_in_bounds", {"props": ["C14"], "cost": 2, "what": "8-byte load of the keyword scanner stays inside the buffered data"}),
+        ("lowercase_run_schedule_independent", {"props": ["C01", "C09", "C05"], "cost": 6, "what": "ascii_lowercase: exactly the run of lowercase letters for every buffered amount and schedule"}),
+        ("keyword_tokens_consume_run_or_nothing", {"props": ["C05", "C06"], "cost": 9, "tiers": T, "what": "node_token / sort_token consume the keyword or nothing"}),
+        ("required_constants", {"props": ["C06", "C08", "C05"], "cost": 4, "what": "binary / decimal / hex constants"}),
+        ("unexpected_total", {"props": ["C05", "C08", "C04"], "cost": 3, "what": "unexpected()"}),
+        ("reach_btor2_token", {"kind": "reach", "cost": 5, "what": "vacuity twin"}),
+    ],
+})
+
 GROUPS["parser_c15"] = {
     "name": "parser_c15",
     "package": "flussab",
